@@ -277,6 +277,7 @@ class MultiTanProcessor(object):
 
     def _tile_parallel(self, pio, cli_progress, parallel, **kwargs):
         import multiprocessing as mp
+        from .par_util import join_workers, put_checking_workers
 
         # Start up the workers
 
@@ -296,7 +297,7 @@ class MultiTanProcessor(object):
 
         with progress_bar(total=len(self._descs), show=cli_progress) as progress:
             for image, desc in zip(self._collection.images(), self._descs):
-                queue.put((image, desc))
+                put_checking_workers(queue, (image, desc), workers, done_event)
                 progress.update(1)
 
         # Finish up
@@ -304,9 +305,7 @@ class MultiTanProcessor(object):
         queue.close()
         queue.join_thread()
         done_event.set()
-
-        for w in workers:
-            w.join()
+        join_workers(workers)
 
 
 def _mp_tile_worker(queue, done_event, pio, _kwargs):
